@@ -207,7 +207,8 @@ theorem inline_serialize (e : Inline Bytes) (hv : validInline e = true) (w : Wri
 
 /-- **T2 `inline_roundtrip`.**  See `Ser.inline_roundtrip`: for every `validInline` expression `e`
 (identifiers / number literals well-shaped, string literals with valid escapes only and no raw
-newline or quote, callee upper-case, named-argument names unique with literal values, no select and
+newline or quote, callee upper-case, named-argument names unique with values that are literals, message
+references or function calls, no select and
 no term attribute inside a nested placeable) and every writer `w`, the serializer writes one literal
 `out`, and on every source with the `&str` invariant that contains `out` at `p` followed by something
 that cannot extend the expression, `get_inline_expression` returns `e'` with `resolve e' = e` and
@@ -459,6 +460,30 @@ def inClass (src : Src) (withJunk : Bool) : Bool :=
   match parse src with
   | .done (t, _) => RoundTrippable withJunk (resolve src t)
   | _ => false
+
+/-- test (class extension 1, `excesses` may be empty): `b=.{$x ->\n[a].\n*[b]y\n}z` — value
+`[text ".", placeable (select …), text "z"]`, multi-line only through the select, inline start, so no line
+takes part in the common-indent computation — is in the class and round-trips -/
+example : (inClass #[98, 61, 46, 123, 36, 120, 32, 45, 62, 10, 91, 97, 93, 46, 10, 42, 91, 98, 93, 121, 10, 125, 122] false &&
+    inClass #[98, 61, 46, 123, 36, 120, 32, 45, 62, 10, 91, 97, 93, 46, 10, 42, 91, 98, 93, 121, 10, 125, 122] true &&
+    roundtripHolds #[98, 61, 46, 123, 36, 120, 32, 45, 62, 10, 91, 97, 93, 46, 10, 42, 91, 98, 93, 121, 10, 125, 122] true) =
+    true := by decide +kernel
+
+/-- test (class extension 2, named-argument values need not be literals): `a = { F(x: foo) }\n` and
+`a = { F(x: G(y: m.a)) }\n` — the value of a named argument is a message reference / a function call
+(`get_inline_expression(only_literal = true)` does not guard its `is_ascii_alphabetic` branch) — are in the
+class and round-trip -/
+example : (inClass #[97, 32, 61, 32, 123, 32, 70, 40, 120, 58, 32, 102, 111, 111, 41, 32, 125, 10] false &&
+    inClass #[97, 32, 61, 32, 123, 32, 70, 40, 120, 58, 32, 71, 40, 121, 58, 32, 109, 46, 97, 41, 41, 32, 125, 10] false &&
+    roundtripHolds #[97, 32, 61, 32, 123, 32, 70, 40, 120, 58, 32, 102, 111, 111, 41, 32, 125, 10] true &&
+    roundtripHolds #[97, 32, 61, 32, 123, 32, 70, 40, 120, 58, 32, 71, 40, 121, 58, 32, 109, 46, 97, 41, 41, 32, 125, 10] true) =
+    true := by decide +kernel
+
+/-- test: `validInline` accepts a call whose named arguments have a message-attribute and a call value, and
+rejects a variable / term / placeable value (the parser does, too) -/
+example : (validInline (.fn [70] [] [([120], .msg [109] (some [97])), ([121], .fn [71] [.var [118]] [])]) &&
+    !validInline (.fn [70] [] [([120], .var [118])]) && !validInline (.fn [70] [] [([120], .term [116] none none)]) &&
+    !validInline (.fn [70] [] [([120], .placeable (.inline (.num [49])))])) = true := by decide +kernel
 
 /-- census: `any_char.ftl` — with_junk=true: true, with_junk=false: true -/
 def fixture_any_char : Src :=
